@@ -1167,7 +1167,7 @@ func (g *FunctionGenerator[V]) GenerateFunc(ast parser2.AST, gc GeneratorContext
 		}
 	case *parser2.FunctionCall:
 		if id, ok := a.Func.(*parser2.Ident); ok {
-			if fun, ok := g.staticFunctions[id.Name]; ok {
+			if fun, ok := g.staticFunctions[id.Name]; ok && !id.Local {
 				if fun.argsNumberNotMatching(len(a.Args)) {
 					return nil, false, id.Error(fun.argsNumberNotMatchingError(id.Name, len(a.Args)))
 				}
